@@ -71,6 +71,11 @@ func runLife(e *Env) {
 	// has - still means one attempt per connection)
 	cfg.ReconnectionPolicy = &gocql.ConstantReconnectionPolicy{MaxRetries: []int{2, 1, 0, 4}[tp.Next(4)], Interval: 100 * time.Millisecond}
 	cfg.MaxWaitSchemaAgreement = 2 * time.Second
+	if tp.Chance(1, 5) {
+		// a policy that tells session creation when it may stop waiting for pools (ReadyPolicy)
+		cfg.PoolConfig.HostSelectionPolicy = gocql.SingleHostReadyPolicy(gocql.RoundRobinHostPolicy())
+		e.Note("policy", "single-host-ready")
+	}
 	// gocql.TimeoutLimit (package level, default 0 = off): a connection that has seen more
 	// than this many request timeouts is closed by the driver - and replaced like any other
 	gocql.TimeoutLimit = int64([]int{0, 0, 1, 2}[tp.Next(4)])
@@ -132,6 +137,17 @@ func runLife(e *Env) {
 	cl.FrameHook = func(sc *node.SConn, stream int, label string, frame []byte) ([]byte, bool) {
 		if cutNext > 0 && (label == "READY" || label == "SUPPORTED") && !sc.Started {
 			cutNext--
+			if label == "READY" && tp.Chance(1, 2) {
+				// the node refuses the connection with an ERROR reply to STARTUP (it is
+				// overloaded, still bootstrapping, ...): a well-formed answer, the same for
+				// every connection it refuses
+				if refusal, err := cqlspec.EncodeResponse(&cqlspec.Response{Version: sc.Version, Stream: stream, Op: cqlspec.OpError,
+					Error: &cqlspec.ErrorBody{Code: []int32{cqlspec.ErrOverloaded, cqlspec.ErrBootstrapping, cqlspec.ErrServer}[tp.Next(3)], Message: "not now"}}); err == nil {
+					k.Fault("conn.startup-refused-with-error-reply")
+					sc.Started = false
+					return refusal, false
+				}
+			}
 			k.Fault("conn.fail-during-handshake")
 			return frame[:tp.Next(len(frame))], true
 		}
